@@ -1,13 +1,13 @@
-//@ unit cm_dfa_walk
-//@ props C07 C08 C01
+//@ unit cm_dfa_walk_sp
+//@ props C08 C01
 //@ kind W
-//@ def all CM_SPECIAL=0
+//@ def all CM_SPECIAL=1
 //@ def quick NCH=4 NST=3 NSYM=3 NALPHA=3
 //@ def thorough NCH=5 NST=4 NSYM=3 NALPHA=3
 //@ cbmc quick --unwind 5 --unwinding-assertions
 //@ cbmc thorough --unwind 6 --unwinding-assertions
-//@ entry h_cm_dfa_walk
-//@ note W: DFAContentModel::validateContent (validateContentSpecial: unit cm_dfa_walk_sp, same text with CM_SPECIAL=1) as a table walk: complete for every child sequence of length <= NCH (names = ids over NALPHA, plus the #PCDATA pseudo child) and EVERY transition table with NST states and NSYM input symbols (smaller automata are embedded: unreachable states, symbols without transitions) satisfying RI_dfa (contracts/cm_dfa_body.inc), DTD and schema symbol matching (Leaf / Any / Any_NS / Any_Other incl. lax/skip variants)
+//@ entry h_cm_dfa_walk_sp
+//@ note W: DFAContentModel::validateContentSpecial (schema, substitution groups; validateContent: unit cm_dfa_walk) as a table walk: complete for every child sequence of length <= NCH (names = ids over NALPHA, plus the #PCDATA pseudo child) and EVERY transition table with NST states and NSYM input symbols (smaller automata are embedded: unreachable states, symbols without transitions) satisfying RI_dfa (contracts/cm_dfa_body.inc), DTD and schema symbol matching (Leaf / Any / Any_NS / Any_Other incl. lax/skip variants)
 //@ note counting states are EXCLUDED here by fCountingStates == 0 (handleRepetitions is extracted and called, its counting branch is unit cm_dfa_count)
 //@ note determinism assumption (the DFA reading of the table; DTD: fElemMap holds distinct names, schema: Unique Particle Attribution): in every state at most one input symbol matching a given child has a valid transition
 //@ note the empty sequence is judged by fEmptyOk (documented meaning: the model accepts empty content); fEmptyOk == fFinalStateFlags[0] is buildDFA's business
@@ -18,7 +18,7 @@
 //@ include cm_common.inc
 //@ include cm_dfa_body.inc
 
-void h_cm_dfa_walk(void)
+void h_cm_dfa_walk_sp(void)
 {
   cm_dfa_setup(0);
   /* determinism of the table for the given children */
